@@ -32,7 +32,8 @@ CF_CAP = [(False, 10, 0, True, False), (True, 5, 0, False, False), (False, 0, 4,
 
 def _gens():
     import c08_tokens
-    return [c08_tokens.generate]
+    import c07_facts
+    return [c08_tokens.generate, c07_facts.generate]
 
 
 def run(chk):
@@ -58,8 +59,10 @@ def op_term(o):
         return '(WSpawn %d%%nat %s)' % (o[1], t)
     if k == 'write':
         return '(WWrite %d%%nat %s %s)' % (o[1], CH[o[2]], vlib.bytes_lit(o[3]))
+    if k == 'writegen':
+        return '(WWriteGen %d%%nat %s %s %s)' % (o[1], CH[o[2]], zlit(o[3]), zlit(o[4]))
     if k == 'read':
-        return '(WRead %d%%nat %s %d%%nat)' % (o[1], CH[o[2]], min(o[3], 2000))
+        return '(WRead %d%%nat %s %d%%nat)' % (o[1], CH[o[2]], min(o[3], 3000))
     if k == 'exit':
         return '(WExit %d%%nat)' % o[1]
     if k == 'reap':
@@ -181,6 +184,61 @@ def gen_histories(chk, B, E):
     return jobs
 
 
+CF_DRAIN = [(False, 10, 0, False, False), (True, 10, 0, False, False), (False, 0, 4, False, False)]
+
+
+def gen_drain(chk, B, E):
+    """Data that arrives only at reap time, through the real Subprocess.finish(): for every cut
+    point of streams with 0-2 capture sections the part after the cut is still in the pipe when
+    the child is reaped (cut 0 = everything)."""
+    streams = [b'hello\n', b'ab' + B + b'xyz' + E + b'cd', b'a' + B + b'x' + E + b'm' + B + b'yy' + E + b'z\n',
+               b'tail' + B[:7], b'0123456789' * 4 + B + b'Q' * 12 + E, B + b'never closed']
+    variants = [(CF_DRAIN, 0, 'stdout', 'stdout'), (CF_DRAIN, 1, 'stderr', 'stdout'), (CF_DRAIN, 2, 'stderr', 'stderr'),
+                (CF_PLAIN, 0, 'stdout', 'stdout')]
+    jobs = []
+    for s in streams:
+        for cfgs, p, wch, rch in variants:
+            for c in range(0, len(s) + 1):
+                ops = [('spawn', p, 'ok')]
+                if c > 0:
+                    ops += [('write', p, wch, s[:c]), ('read', p, rch, 3000)]
+                if c < len(s):
+                    ops.append(('write', p, wch, s[c:]))
+                ops += [('exit', p), ('reap', p)]
+                jobs.append(('drain', (cfgs, False, 3, ops)))
+    # three parts: read, read, drain
+    s = streams[2]
+    for c1 in range(1, len(s), 5):
+        for c2 in range(c1 + 1, len(s), 7):
+            ops = [('spawn', 0, 'ok'), ('write', 0, 'stdout', s[:c1]), ('read', 0, 'stdout', 3000),
+                   ('write', 0, 'stdout', s[c1:c2]), ('read', 0, 'stdout', 3000), ('write', 0, 'stdout', s[c2:]),
+                   ('exit', 0), ('reap', 0)]
+            jobs.append(('drain', (CF_DRAIN, False, 3, ops)))
+    return jobs
+
+
+def gen_bigdrain(chk, B, E):
+    """1 byte .. 64 KiB still unread in the stdout and/or stderr pipe when the child is reaped."""
+    jobs = []
+    sizes = [1, 8191, 8192, 8193, 40000, 65536]
+    if chk.tier != 'quick':
+        sizes += [2, 4095, 4096, 4097, 16384, 32768, 65535]
+    for i, n in enumerate(sizes):
+        head = b'x' + B + b'sec' + E
+        # capture off, stdout
+        jobs.append(('bigdrain', (CF_PLAIN, False, 3, [('spawn', 0, 'ok'), ('writegen', 0, 'stdout', n, i), ('exit', 0), ('reap', 0)])))
+        # capture on, stdout, a section read before the burst
+        jobs.append(('bigdrain', (CF_DRAIN, False, 3, [('spawn', 0, 'ok'), ('write', 0, 'stdout', head), ('read', 0, 'stdout', 3000),
+                                                       ('writegen', 0, 'stdout', n, i + 3), ('exit', 0), ('reap', 0)])))
+        # capture on stderr; both pipes hold data at reap
+        jobs.append(('bigdrain', (CF_DRAIN, False, 5, [('spawn', 2, 'ok'), ('writegen', 2, 'stdout', n, i + 5),
+                                                       ('writegen', 2, 'stderr', max(1, n // 2), i + 9), ('exit', 2), ('reap', 2)])))
+        # redirect_stderr: both channels into the one pipe (together <= capacity)
+        jobs.append(('bigdrain', (CF_DRAIN, False, 3, [('spawn', 1, 'ok'), ('writegen', 1, 'stdout', n // 2, i + 1),
+                                                       ('writegen', 1, 'stderr', n - n // 2, i + 2), ('exit', 1), ('reap', 1)])))
+    return jobs
+
+
 # ------------------------------------------------------------------ single channel / strip
 
 def gen_strip_strings(chk):
@@ -257,7 +315,7 @@ def _run(chk, wd, proved):
     import c08_disp as H
     import c07_seam as S
     B, E = H.tokens()
-    hjobs = gen_histories(chk, B, E)
+    hjobs = gen_drain(chk, B, E) + gen_bigdrain(chk, B, E) + gen_histories(chk, B, E)
     corpus = _load_corpus()
     hjobs = [('corpus', j) for j in corpus] + hjobs
     cjobs = gen_chan(chk, H, B, E)
@@ -312,25 +370,33 @@ def _run(chk, wd, proved):
                        'frags': [list(f) for f in cmeta[i][0]], 'capture_maxbytes': cmeta[i][1]}, nofail=True)
     # ---- histories
     sums, smeta, exact, emeta = [], [], [], []
+    nfail = nwrong = 0
     for idx, ((fam, job), (tr, fail, verdicts)) in enumerate(zip(hjobs, hres)):
         nruns += 1
         chk.dist('world:' + fam)
         for o in job[3]:
             chk.dist('op:' + o[0] + (':' + (o[2] if isinstance(o[2], str) else 'pipefail') if o[0] == 'spawn' else ''))
+            if o[0] == 'read':
+                assert o[3] <= 3000
         if tr is None:
-            chk.violation({'kind': 'the implementation failed on this history', 'why': fail, 'history': _json_job(job)})
+            nfail += 1
+            if nfail <= 10:
+                chk.violation({'kind': 'the implementation failed on this history', 'why': fail, 'history': _json_job(job)})
             continue
         wrong = [v for v in verdicts if v[2] != 'ansi-split']
         if wrong:
-            chk.violation({'kind': 'the implementation violates C07 on this history (judged by the reference splitter)',
-                           'channels': wrong, 'history': _json_job(job)})
+            nwrong += 1
+            # shortest histories first in the generators: keep the first ones as replays
+            if nwrong <= 10:
+                chk.violation({'kind': 'the implementation violates C07 on this history (judged by the reference splitter)',
+                               'channels': wrong, 'history': _json_job(job)})
             continue
         if verdicts:
             known_ansi += 1
         distinct.add(('w', H.wsum(tr) % 1000003))
         sums.append(world_term(job, True, zlit(H.wsum(tr))))
         smeta.append((job, tr))
-        if idx % 25 == 0 or fam in ('reuse', 'corpus'):
+        if (idx % 25 == 0 or fam in ('reuse', 'corpus')) and fam != 'bigdrain':
             exact.append(world_term(job, True, zlist(tr)))
             emeta.append((job, tr))
     ctype = 'list pcfg * bool * bool * nat * list wop * %s'
@@ -340,6 +406,8 @@ def _run(chk, wd, proved):
     bad, errs = vlib.coq_compare(IMPORTS, ctype % 'list Z', 'check_world', exact, wd, tag='wexact', shard=60)
     bad = _retry_incap(chk, bad, errs, emeta, wd, ctype % 'list Z', 'check_world', zlist)
     _report_world(chk, bad, errs, emeta, 'exact')
+    if nfail > 10 or nwrong > 10:
+        chk.note('%d histories failed and %d violated C07 in all; the first 10 of each are kept as replays' % (nfail, nwrong))
     if known_ansi:
         chk.known_finding('C07-ansi-split', 'strip_ansi: an escape sequence cut by a read boundary is not stripped from the log '
                                            '(stripEscapes is applied per logged chunk); %d such runs explored, all agree with '
@@ -356,7 +424,10 @@ def _run(chk, wd, proved):
                    'of <= 6 symbols over {ESC,[,m,3,x} (thorough: +A, <= 7) for stripEscapes; every fragmentation of every stream of <= 3 pieces '
                    '(<= 4 over 5 pieces) of escape/tag pieces with strip_ansi on; every operation sequence of length <= %d over an '
                    '18-operation alphabet (3 processes: spawn ok / fork failure / pipe failure, writes, fragmented reads, exit, '
-                   'reap, unrelated open/close) followed by a flush-and-reap epilogue; plus the descriptor-reuse scenarios and random '
+                   'reap, unrelated open/close) followed by a flush-and-reap epilogue; every cut point of 6 streams with 0-2 capture '
+                   'sections where the part after the cut is still in the pipe at reap (capture on stdout / through redirect / on '
+                   'stderr / off); 1, 8191, 8192, 8193, 40000, 65536 bytes still unread in the stdout and/or stderr pipe at reap '
+                   '(pipe capacity 64 KiB; the seam read honours the requested size); plus the descriptor-reuse scenarios and random '
                    'long histories; distinct_nontrivial = distinct trace checksums of histories (all contain at least one spawn) '
                    'and distinct stripEscapes outcomes' % (3 if chk.tier == 'quick' else 4))
     cov['samples'] = [_json_job(hjobs[len(hjobs) // 3][1]), _json_job(hjobs[-1][1])]
